@@ -3,8 +3,7 @@ C07 — rescaling genome coordinates and mutation rate together leaves dates unc
 
 A  theorems in Props/C07 (coordinate grading: mu*span and span ratios have degree 0; likelihood tables,
    span fractions, span-weighted mixture prior, the whole discrete view, edge likelihoods of the
-   variational method unchanged for every c != 0; `_count_mutations` (plain) returns the same counts and
-   mutation->edge map and spans x c, derived from the committed sweep correctness theorem).
+   variational method unchanged for every c != 0).
 B  the executable models (Driver/Scale.lean, Float) against the real code, at base AND rescaled
    coordinates: Poisson parameters recorded by rebinding scipy.stats.poisson, spans / span fractions,
    mixture_expect_and_var, edge_likelihoods; count_mutations compared across scales on the real function.
@@ -18,8 +17,8 @@ from .. import common, gen, scale_corr as sc
 from ..common import Result, Violation
 
 META = dict(
-    level='Lean theorems, for every c != 0 (c > 0 where positions are compared) over any linear ordered field: every Poisson parameter dt*mu*span, every span fraction and root fraction, the span-weighted mixture prior, hence the whole unit-free view of a discrete run and its time grid are unchanged, so posterior means/variances of inside_outside and the maximization estimates are identical for ANY recursion reading only that view; edge likelihoods (count, span*mu) of the variational method are unchanged, hence so is any function of them (EP, rescaling, constraint); `_count_mutations` (plain variant) gives the same counts and mutation-to-edge map and spans x c. Partial: the size-biased count_mutations sweep and SpansBySamples are not modelled (checked by correspondence/oracle only); floating point by tolerance only. Models tied to the code bit-for-bit at Float at base and rescaled coordinates; date() checked metamorphically over 4 coordinate scale factors.',
-    note='Lean kernel + {propext, Classical.choice, Quot.sound}; exact arithmetic; sampled correspondence; scipy pmf/cdf uninterpreted; imports the committed Sweep/CountMut correctness theorem',
+    level='Lean theorems, for every c != 0 (c > 0 where positions are compared) over any linear ordered field: every Poisson parameter dt*mu*span, every span fraction and root fraction, the span-weighted mixture prior, hence the whole unit-free view of a discrete run and its time grid are unchanged, so posterior means/variances of inside_outside and the maximization estimates are identical for ANY recursion reading only that view; edge likelihoods (count, span*mu) of the variational method are unchanged GIVEN that count_mutations returns the same counts and spans x c, hence so is any function of them (EP, rescaling, constraint). Partial: the count_mutations sweep and SpansBySamples are not modelled here (their coordinate behaviour is checked on the real functions across scales); floating point by tolerance only. Models tied to the code bit-for-bit at Float at base and rescaled coordinates; date() checked metamorphically over 4 coordinate scale factors.',
+    note='Lean kernel + {propext, Classical.choice, Quot.sound}; exact arithmetic; sampled correspondence; scipy pmf/cdf uninterpreted',
     technique='second grading of the degree discipline (coordinate degree) + bit-exact model/code correspondence + metamorphic oracle',
     ref='§3 C07',
 )
@@ -28,7 +27,7 @@ LEAN_BUILD = ["TsdateVerif.Model.Proto", "TsdateVerif.Model.Scale", "TsdateVerif
 ASSUMPTIONS = [
     "theorems are about exact arithmetic; floating-point agreement by tolerance (discrete 1e-9, variational 1e-6 means / 1e-5 variances)",
     "the Poisson pmf, prior cdfs and the inside/outside/maximization/EP recursions are arbitrary functions of arguments proved unchanged",
-    "size-biased count_mutations and SpansBySamples (tskit tree iteration) are outside the theorems; their coordinate behaviour is checked on the real functions",
+    "the count_mutations sweep and SpansBySamples (tskit tree iteration) are outside the theorems; their coordinate behaviour (same counts and mutation-to-edge map, spans x c) is checked on the real functions across scales",
 ]
 
 F5 = "Use fewer rescaling intervals"
@@ -61,9 +60,16 @@ def count_mutations_piece(ts, ts_c, c, res, stats, replay):
                                             f"count_mutations({name}): spans at c={c!r} differ from c x spans by rel. {e:.3g}", replay))
 
 
-def one_case(ctx, rng, res, stats, batch, checks, scales, corr=True):
-    method = str(rng.choice(["variational_gamma", "inside_outside", "maximization"]))
-    ts, info = sc.draw_ts(rng, method)
+SCHEDULE = [("variational_gamma", False), ("inside_outside", None), ("maximization", None),
+            ("variational_gamma", True), ("inside_outside", None), ("variational_gamma", None)]
+
+
+def one_case(ctx, rng, res, stats, batch, checks, scales, corr=True, idx=None):
+    if idx is None:
+        method, hist = str(rng.choice(["variational_gamma", "inside_outside", "maximization"])), None
+    else:
+        method, hist = SCHEDULE[idx % len(SCHEDULE)]
+    ts, info = sc.draw_ts(rng, method, hist)
     kw = sc.explicit_defaults(sc.draw_options(rng, ts, info, method))
     discrete = method != "variational_gamma"
     stats["methods"][method] = stats["methods"].get(method, 0) + 1
@@ -113,10 +119,22 @@ def one_case(ctx, rng, res, stats, batch, checks, scales, corr=True):
             continue
         o1 = sc.outputs(r1["out"][0] if discrete else r1["out"])
         errs = sc.compare(base, o1, 1.0, method)
+        f13 = None
+        if any(e > sc.field_tol(f, method) for f, e in errs.items()):
+            f13 = sc.near_tie_rescaling(ts, {k: v for k, v in kw.items() if k != "return_fit"}, ts_c,
+                                        {k: v for k, v in kw_c.items() if k != "return_fit"}, 1.0)
+            if f13:
+                stats["f13_near_tie"] = stats.get("f13_near_tie", 0) + 1
+                res.violations.append(Violation(
+                    f"{sc.NEAR_TIE}:{method}",
+                    f"{method}: outputs at coordinate scale c={c!r} differ from the unscaled outputs by rel. {max(errs.values()):.3g}; "
+                    f"with rescaling_intervals=0 they agree; unrescaled posterior means have exact ties {f13['exact_ties']} / near "
+                    f"ties {f13['near_ties']} in the two runs (mutational_timescale is discontinuous at ties)", replay))
         for f, e in errs.items():
             key = f"{method}:{f}"
-            stats["max_relerr"][key] = max(stats["max_relerr"].get(key, 0.0), e if np.isfinite(e) else 1e300)
-            if e > sc.field_tol(f, method):
+            if not f13:
+                stats["max_relerr"][key] = max(stats["max_relerr"].get(key, 0.0), e if np.isfinite(e) else 1e300)
+            if e > sc.field_tol(f, method) and not f13:
                 res.violations.append(Violation(
                     f"not-invariant:{method}:{f}",
                     f"{method}: {f} at coordinate scale c={c!r} differs from the unscaled output by rel. {e:.3g} "
@@ -147,6 +165,29 @@ def one_case(ctx, rng, res, stats, batch, checks, scales, corr=True):
                                  if k not in ("return_fit",)}))
 
 
+def corpus(ctx, res, stats):
+    """Minimised inputs of earlier findings always run first (corpus/C07/*.json)."""
+    import json
+    for f in sorted((common.VERIF / "corpus" / "C07").glob("*.json")):
+        d = json.loads(f.read_text())
+        ts = gen.ts_from_jsonable(d["ts"])
+        kw = sc.explicit_defaults(sc.kw_from_jsonable(d["kw"]))
+        c = float.fromhex(d["c"])
+        ts_c, kw_c = sc.scale_coords_ts(ts, c), sc.c07_kwargs(kw, c)
+        r0, r1 = sc.run(ts, kw), sc.run(ts_c, kw_c)
+        res.evaluations += 2
+        stats["corpus"] = stats.get("corpus", 0) + 1
+        if not (r0["ok"] and r1["ok"]):
+            continue
+        errs = sc.compare(sc.outputs(r0["out"]), sc.outputs(r1["out"]), 1.0, kw["method"])
+        if any(e > sc.field_tol(fl, kw["method"]) for fl, e in errs.items()):
+            f13 = sc.near_tie_rescaling(ts, kw, ts_c, kw_c, 1.0)
+            kind = f"{sc.NEAR_TIE}:{kw['method']}" if f13 else f"not-invariant:{kw['method']}:{max(errs, key=errs.get)}"
+            res.violations.append(Violation(kind, f"corpus {f.name}: {kw['method']} outputs at coordinate scale c={c!r} differ "
+                                                  f"by rel. {max(errs.values()):.3g}" + (f" (near-tie pattern {f13})" if f13 else ""),
+                                            dict(kind="date", ts=d["ts"], kw=d["kw"], c=d["c"])))
+
+
 def new_stats():
     return dict(methods={}, raised={}, scales={}, max_relerr={}, f5_flip=0, driver_cases={})
 
@@ -166,10 +207,11 @@ def run(ctx):
     stats = new_stats()
     batch = sc.Batch()
     checks = []
+    corpus(ctx, res, stats)
     rng = ctx.rng(1)
     scales = list(sc.C07_SCALES) if ctx.tier == "quick" else list(sc.C07_SCALES) + [3.141592653589793, 1e-6, 1e6, 2.5e-2]
-    for i in range(ctx.n(30, 400)):
-        one_case(ctx, rng, res, stats, batch, checks, scales, corr=(i % 2 == 0))
+    for i in range(ctx.n(30, 240)):
+        one_case(ctx, rng, res, stats, batch, checks, scales, corr=(i % 2 == 0), idx=i)
     finish_batch(res, stats, batch, checks)
     stats["hypotheses"] = dict(c_nonzero="always (scale factors of the statement are positive)")
     res.rule = ("C: date() on msprime inputs (3-7 samples, 1-8 trees, >=5 mutations; historical samples / unphased singletons "
@@ -188,8 +230,8 @@ def search(ctx):
     stats = new_stats()
     batch = sc.Batch()
     rng = ctx.rng(5)
-    for _ in range(ctx.n(10, 40)):
-        one_case(ctx, rng, res, stats, batch, [], list(sc.C07_SCALES) + [3.141592653589793, 1e-6], corr=False)
+    for j in range(ctx.n(10, 40)):
+        one_case(ctx, rng, res, stats, batch, [], list(sc.C07_SCALES) + [3.141592653589793, 1e-6], corr=False, idx=j)
     return res
 
 
